@@ -1,11 +1,15 @@
 package main
 
 import (
+	"bufio"
 	"errors"
 	"fmt"
 	"os"
 	"sort"
+	"strings"
 	"time"
+
+	"github.com/evolbioinfo/gotree/io/utils"
 
 	"github.com/evolbioinfo/gotree/support"
 	"github.com/evolbioinfo/gotree/tree"
@@ -17,6 +21,9 @@ func init() { register("C11", c11) }
 // consecutive ids, an erroneous entry (Err set, no tree) or a tree on other taxa at position bad.
 func c11feed(c *Sexp) (<-chan tree.Trees, error) {
 	trees := c.Get("trees")
+	if c.Str("feed") == "text" {
+		return c11feedText(c)
+	}
 	badposs := map[int]bool{}
 	for _, p := range c.IntList("badposs") {
 		badposs[p] = true
@@ -47,6 +54,34 @@ func c11feed(c *Sexp) (<-chan tree.Trees, error) {
 	return ch, nil
 }
 
+// c11feedText writes the trees as a multi-tree Newick text (one tree per line, a malformed line at every
+// bad position: badkind parse) and reads it back through the real reader utils.ReadMultiTrees, the way
+// every command does; the reader's goroutine runs ahead of the consumer by up to its channel buffer.
+func c11feedText(c *Sexp) (<-chan tree.Trees, error) {
+	badposs := map[int]bool{}
+	for _, p := range c.IntList("badposs") {
+		badposs[p] = true
+	}
+	badkind := c.Str("badkind")
+	var b strings.Builder
+	for i, ts := range c.Get("trees").List {
+		t, err := BuildTree(ts)
+		if err != nil {
+			return nil, err
+		}
+		if badkind == "taxa" && badposs[i] {
+			t.Tips()[0].SetName("zz_foreign")
+		}
+		txt := t.Newick()
+		if badkind == "parse" && badposs[i] {
+			txt = strings.Replace(txt, ")", "", 1) // unbalanced parentheses: a parse error
+		}
+		b.WriteString(txt)
+		b.WriteString("\n")
+	}
+	return utils.ReadMultiTrees(bufio.NewReader(strings.NewReader(b.String())), utils.FORMAT_NEWICK), nil
+}
+
 type c11rec struct {
 	id  int
 	txt *Sexp
@@ -68,6 +103,10 @@ func c11run(c *Sexp, threads int) *Sexp {
 	ch, err := c11feed(c)
 	if err != nil {
 		return L(KV("panic", A("build: "+err.Error())))
+	}
+	if d := c.Int("delayms"); d > 0 {
+		// a consumer that starts late: the reader has filled its channel buffer by then
+		time.Sleep(time.Duration(d) * time.Millisecond)
 	}
 	done := make(chan *Sexp, 1)
 	go func() {
@@ -120,6 +159,30 @@ func c11run(c *Sexp, threads int) *Sexp {
 			ferr = errStr(e)
 			for i, ed := range ref.Edges() {
 				recs = append(recs, c11rec{i, L(I(i), F(ed.Support()))})
+			}
+		case "tbetaxa":
+			// transfer supports with the per-taxon and per-branch transfer tables (--moved-taxa, --transfer-tree):
+			// the tables are written to the log file; their lines are part of the result
+			logf, lerr := os.CreateTemp("", "c11-tbe-*.log")
+			if lerr != nil {
+				ferr = lerr.Error()
+				break
+			}
+			devnull, _ := os.OpenFile(os.DevNull, os.O_WRONLY, 0)
+			old := os.Stderr
+			os.Stderr = devnull
+			_, e := support.TBE(ref, ch, threads, false, true, true, 0.3, logf, nil)
+			os.Stderr = old
+			devnull.Close()
+			ferr = errStr(e)
+			for i, ed := range ref.Edges() {
+				recs = append(recs, c11rec{i, L(I(i), F(ed.Support()))})
+			}
+			logf.Close()
+			content, _ := os.ReadFile(logf.Name())
+			os.Remove(logf.Name())
+			for i, ln := range strings.Split(string(content), "\n") {
+				recs = append(recs, c11rec{100000 + i, L(I(100000+i), A(ln))})
 			}
 		}
 		sort.SliceStable(recs, func(i, j int) bool { return recs[i].id < recs[j].id })
